@@ -274,15 +274,18 @@ theorem node_perm_congr (n : Node) (a b : Nat) (h : a = b) : { n with perm := a 
 
 theorem setMode_perm (e : Entry) (m : Nat) (hl : e.link = false) (hfl : e.file = !e.dir) (hm : m < 4096) :
     (e.setMode m).mode - typeBits (kindOf e) = m := by
-  unfold Entry.setMode kindOf optsMode
+  unfold Entry.setMode kindOf
+  simp only [ModeBits.optsMode_some]
   cases hd : e.dir with
   | true =>
     rw [hd] at hfl
-    simp only [hl, hfl, Bool.false_eq_true, if_false, Bool.not_true, if_true, Option.getD_some, typeBits]
+    simp only [hl, hfl, Bool.false_eq_true, if_false, Bool.not_true, if_true, typeBits,
+      ModeBits.and_perm_of_lt m hm]
     exact or_sub_dir m hm
   | false =>
     rw [hd] at hfl
-    simp only [hl, hfl, Bool.false_eq_true, if_false, Bool.not_false, if_true, Option.getD_some, typeBits]
+    simp only [hl, hfl, Bool.false_eq_true, if_false, Bool.not_false, if_true, typeBits,
+      ModeBits.and_perm_of_lt m hm]
     exact or_sub_file m hm
 
 theorem absNode_setMode (s : State) (k : FsPath) (e : Entry) (m : Nat) (hl : e.link = false)
